@@ -1455,7 +1455,6 @@ def rule_r8(chk, prog):
                 raise AnalysisError(
                     f'C16.R8: {m.loc(x)}: memo used through '
                     f'.{x.func.attr}(), not modelled')
-    chk.floor('C16.R8', 'probes of the sort memo', nprobe, 2)
     # reads cache[K] must be dominated by "K in cache" (or sit in a try
     # with a KeyError handler)
     for x in walk_no_nested(f):
@@ -1474,9 +1473,12 @@ def rule_r8(chk, prog):
                                 h.type) for h in p_.handlers):
                         ok = True
                     p_ = getattr(p_, '_parent', None)
+                if ok:
+                    nprobe += 1  # the read under "except KeyError" probes
             chk.check('C16.R8', where, x, ok,
                       f'{unparse(x)} is read without a membership test of '
                       'that key', loc=m.loc(x), nontrivial=True)
+    chk.floor('C16.R8', 'probes of the sort memo', nprobe, 2)
     # ---- stores on every path through the computation
     cfg = cfg_of(f)
     cn = expr_owner_node(cfg, comp)
